@@ -96,7 +96,10 @@ def rule_p1(ctx, F):
     if fn:
         jump = [pt for pt, n, l, op in stores(fn) if writes_record(l, "Lexer") == "current_position" and "start_byte" in show(n)]
         ctx.floor("jump to next range start", len(jump), 1)
-        ctx.gate("P1", fn, jump, [("there is a next range", "self->current_included_range_index < self->included_range_count", True)], accept_desc="jumping to the next range's start")
+        ctx.gate("P1", fn, jump, [("there is a next range", "self->current_included_range_index < self->included_range_count", True),
+                                  ("the position moves only into a range that contains text",
+                                   [("current_range->end_byte > current_range->start_byte", True), ("current_range->end_byte == current_range->start_byte", False)])],
+                 accept_desc="jumping to the next range's start")
         look = [pt for pt, n in find(fn, "ts_lexer__get_lookahead(self)")]
         ctx.gate("P1", fn, look, [("position is inside the current range",
                                    [("self->current_position.bytes >= current_range->end_byte", False)]), ("a current range exists", "current_range", True),
